@@ -756,6 +756,99 @@ func runC07(c *Ctx) {
 	c.rule("C07-R11", "def-use: in Interpreter.ApplyTypeDefaults every value written into the result object that is not copied from the request's own object is the result of evaluating the field's default expression in this call (EvaluateExpression), never a value kept from an earlier request: a default such as `tags: [str] = [\"new\"]` must be a new array for every request, or one request's in-place edits become the next request's 'default'")
 	freshDefaultsRule(c, "C07-R11")
 
+	c.rule("C07-R12", "MEMO: where the validators (ValidateObjectAgainstTypeDef, CheckType, ApplyTypeDefaults and what they call in pkg/interpreter) remember something in storage that outlives the request (a map or sync.Map held in a TypeChecker/Interpreter field), the key covers what the remembered value was computed from: a value computed from a type definition's Fields is never filed under the definition's Name alone - two definitions with one Name coexist (`import { User as BillingUser }` keeps the original Name), and whichever is validated first would decide how the other's fields are checked")
+	{
+		roots := []*ssa.Function{c.fn(interpPkg, "TypeChecker.ValidateObjectAgainstTypeDef"), c.fn(interpPkg, "TypeChecker.CheckType"), c.fn(interpPkg, "Interpreter.ApplyTypeDefaults")}
+		seen := map[*ssa.Function]bool{}
+		var walk func(fn *ssa.Function, d int)
+		walk = func(fn *ssa.Function, d int) {
+			if fn == nil || seen[fn] || d > 5 || len(fn.Blocks) == 0 || fn.Pkg == nil || fn.Pkg.Pkg.Path() != interpPath {
+				return
+			}
+			seen[fn] = true
+			eachCall(fn, func(call ssa.CallInstruction) { walk(staticFn(call), d+1) })
+		}
+		for _, r := range roots {
+			walk(r, 0)
+		}
+		isName := func(v ssa.Value) bool {
+			return derivesFrom(v, func(x ssa.Value) bool {
+				switch y := x.(type) {
+				case *ssa.Field:
+					if nt := namedOf(y.X.Type()); nt != nil && nt.Obj().Name() == "TypeDef" {
+						return nt.Underlying().(*types.Struct).Field(y.Field).Name() == "Name"
+					}
+				case *ssa.UnOp:
+					return loadedFromField(y, "TypeDef", "Name")
+				}
+				return false
+			})
+		}
+		fromFields := func(v ssa.Value) bool {
+			return derivesFrom(v, func(x ssa.Value) bool {
+				switch y := x.(type) {
+				case *ssa.Field:
+					if nt := namedOf(y.X.Type()); nt != nil && nt.Obj().Name() == "TypeDef" {
+						return nt.Underlying().(*types.Struct).Field(y.Field).Name() == "Fields"
+					}
+				case *ssa.UnOp:
+					return loadedFromField(y, "TypeDef", "Fields")
+				case *ssa.FieldAddr:
+					_, f, ok := fieldOf(y)
+					if nt, _, _ := fieldOf(y); ok && nt != nil && nt.Obj().Name() == "TypeDef" && f == "Fields" {
+						return true
+					}
+				}
+				return false
+			})
+		}
+		longLived := func(v ssa.Value) bool {
+			return derivesFrom(v, func(x ssa.Value) bool {
+				if u, ok := x.(*ssa.UnOp); ok && u.Op == token.MUL {
+					if nt, _, ok := fieldOf(u.X); ok && nt != nil && (nt.Obj().Name() == "TypeChecker" || nt.Obj().Name() == "Interpreter") {
+						return true
+					}
+				}
+				if fa, ok := x.(*ssa.FieldAddr); ok {
+					if nt, _, ok := fieldOf(fa); ok && nt != nil && (nt.Obj().Name() == "TypeChecker" || nt.Obj().Name() == "Interpreter") {
+						return true
+					}
+				}
+				return false
+			})
+		}
+		nStores := 0
+		for fn := range seen {
+			k := 0
+			eachInstr(fn, func(_ *ssa.BasicBlock, _ int, ins ssa.Instruction) {
+				var key, val ssa.Value
+				switch x := ins.(type) {
+				case *ssa.MapUpdate:
+					if longLived(x.Map) {
+						key, val = x.Key, x.Value
+					}
+				case *ssa.Call:
+					switch callName(x) {
+					case "sync.Map.Store", "sync.Map.LoadOrStore", "sync.Map.Swap":
+						if longLived(x.Call.Args[0]) {
+							key, val = x.Call.Args[1], x.Call.Args[2]
+						}
+					}
+				}
+				if key == nil {
+					return
+				}
+				nStores++
+				k++
+				bad := isName(key) && fromFields(val) && !fromFields(key)
+				c.ob("C07-R12", fnKey(fn)+"#remembered-value-keyed-by-what-it-was-computed-from-"+itoa(k), ins.Pos(), !bad, "a table computed from a type definition's Fields is kept across requests under the definition's Name only: of two definitions that share a Name (an aliased import next to a local type) the one validated first is used for both - wrongly typed fields of the other reach the route body")
+			})
+		}
+		c.Sites["C07-R12#validator-functions"] = len(seen)
+		c.Sites["C07-R12#stores-into-long-lived-tables"] = nStores
+		c.ob("C07-R12", interpPkg+"#validators-scanned", token.NoPos, len(seen) >= 5, "fewer than 5 validator functions found: the rule's roots are gone")
+	}
+
 	c.rule("C07-R8", "WCS: the compiled request path (closure + cmd/glyph helpers) keeps no package-level sync.Once / Pool state and writes no package variable: the type checker used for validation is built from the current compiledTypeDefs on every request (a cached one survives `glyph dev` reloads and validates against stale nested types)")
 	compiledPathGlobalState(c, "C07-R8")
 	c.ob("C07-R8", "cmd/glyph#compiled-request-path-global-state-scanned", token.NoPos, true, "")
